@@ -14,7 +14,9 @@ from vlib import ice, rt
 
 PROT, EK, IV, CT, TAG, AAD = b"PROTSEG", b"EKSEG", b"IVSEG", b"CTSEG", b"TAGSEG", b"AADSEG"
 EKV, CTV, AADV = b"encrypted-key-24-octets!", b"ciphertext-octets", b"aad-octets"
-ENCS = [("A128GCM", 12, 16, "gcm"), ("A128CBC-HS256", 16, 32, "cbc")]
+ENCS = [("A128GCM", 12, 16, "gcm"), ("A128CBC-HS256", 16, 32, "cbc"), ("C20P", 12, 32, "chacha"), ("XC20P", 24, 32, "chacha")]
+from joserfc.drafts.jwe_chacha20 import register_chaha20_poly1305
+register_chaha20_poly1305()   # draft content encryptions: registered explicitly (class-level table of this process only)
 MODES = ["dir", "A128KW", "A128GCMKW", "RSA-OAEP", "ECDH-ES", "ECDH-ES+A128KW", "PBES2-HS256+A128KW", "ECDH-ES/OKP",
          "ECDH-1PU", "ECDH-1PU+A128KW"]
 DIRECT = {"dir", "ECDH-ES", "ECDH-ES/OKP", "ECDH-1PU"}
@@ -111,12 +113,12 @@ def check_content(env, sc, aad, cek):
     """the AEAD was consulted exactly once, about exactly the received octets, and said valid"""
     if len(sc["iv"]) != sc["ivlen"]:
         return False
-    if sc["kind"] == "gcm":
-        gs = [g for g in env.of("gcm_decrypt") if g["aad"] is not None]
-        if len(gs) != 1 or env.of("compare"):
+    if sc["kind"] in ("gcm", "chacha"):
+        gs = [g for g in env.of("gcm_decrypt" if sc["kind"] == "gcm" else "chacha_decrypt") if g["aad"] is not None]
+        if len(gs) != 1 or env.of("compare") or len(aead_calls(env)) != len(gs) + len([g for g in env.of("gcm_decrypt") if g["aad"] is None]):
             return False
         g = gs[0]
-        return g["verdict"] is True and g["aad"] == aad and g["iv"] == sc["iv"] and g["tag"] == sc["tag"] and g["ct"] == CTV and g["key"] == cek
+        return g["verdict"] is True and g["aad"] == aad and g["iv"] == sc["iv"] and g["tag"] == sc["tag"] and len(sc["tag"]) == 16 and g["ct"] == CTV and g["key"] == cek
     cmps, macs, cbcs = env.of("compare"), env.of("hmac"), env.of("cbc_decrypt")
     if len(cmps) != 1 or len(macs) != 1 or len(cbcs) != 1 or not cmps[0]["verdict"]:
         return False
@@ -214,7 +216,7 @@ def judge_compact(env, obj, sc):
             return False
         # decompression only after authentication
         kinds = [x["kind"] for x in env.calls]
-        auth = "gcm_decrypt" if sc["kind"] == "gcm" else "compare"
+        auth = {"gcm": "gcm_decrypt", "chacha": "chacha_decrypt"}.get(sc["kind"], "compare")
         if kinds.index("zdecompress") < max(i for i, k in enumerate(kinds) if k == auth):
             return False
         want = b"inflated:" + env.plaintext
@@ -289,6 +291,24 @@ def compact_pbes2(enc_i: int, iv_i: int, tag_i: int, ek_present: bool, cek_i: in
 
 
 P2C = [1000, 1, 999, 4096]         # the iteration count the key is derived with is the one in the header, small or large
+
+
+def compact_chacha(kw: bool, xc: bool, iv_i: int, tag_i: int, ek_present: bool, cek_i: int, has_zip: bool, v0: bool, v1: bool) -> bool:
+    """
+    pre: 0 <= iv_i <= 3 and 0 <= tag_i <= 3 and 0 <= cek_i <= 2
+    post: _
+    """
+    # the draft content encryptions C20P (96-bit nonce) and XC20P (192-bit nonce), direct and with A128KW
+    return _compact(1 if kw else 0, 3 if xc else 2, iv_i, tag_i, ek_present, cek_i if kw else 0, has_zip, 0, v0, v1)
+
+
+def compact_chacha_witness(kw: bool, xc: bool, v0: bool, v1: bool) -> bool:
+    """
+    post: _
+    """
+    sc = scenario(1 if kw else 0, 3 if xc else 2, 0, 0, kw, 0, False, 0)
+    env, obj, exc = run_compact(sc, [v0, v1])
+    return not (obj is not None and kw and xc)
 
 
 def compact_1pu(direct: bool, enc_i: int, iv_i: int, tag_i: int, ek_present: bool, cek_i: int, epk_bad: int, sender_i: int, v0: bool, v1: bool) -> bool:
@@ -497,6 +517,8 @@ def _content(R, enc, cek, iv, aadbytes, pt, zipped):
         c = zlib.compressobj(wbits=-15)
         pt = c.compress(pt) + c.flush()
     n = len(cek)
+    if enc in ("C20P", "XC20P"):
+        return R.content_encrypt(enc, cek, iv, aadbytes, pt)
     if enc.endswith("GCM"):
         from cryptography.hazmat.primitives.ciphers.aead import AESGCM
         out = AESGCM(cek).encrypt(iv, pt, aadbytes)
@@ -547,6 +569,11 @@ def replay(func, call):
         elif func == "compact_1pu":
             direct1, enc_i, iv_i, tag_i, ek_present, cek_i, epk_bad, sender_i, v0, v1 = args
             mode_i, has_zip = (8 if direct1 else 9), False
+        elif func == "compact_chacha":
+            kw_, xc_, iv_i, tag_i, ek_present, cek_i, has_zip, v0, v1 = args
+            mode_i, enc_i, epk_bad = (1 if kw_ else 0), (3 if xc_ else 2), 0
+            if not kw_:
+                cek_i, v1 = 0, v0
         else:
             return {"violated": None, "detail": "witness"}
         sc = scenario(mode_i, enc_i, iv_i, tag_i, ek_present, cek_i, has_zip, epk_bad, p2c)
